@@ -1,4 +1,5 @@
-"""C02 fact extractor: regenerates props/C02/coq/Extracted.v from
+"""C02 fact extractor (round 3: also the decide_repack limit expressions, keep condition, PackInfo::cmp
+operands, resize rule): regenerates props/C02/coq/Extracted.v from
 crates/core/src/commands/prune.rs (+ blob.rs):
 
   * decide_table   — the `(delete_mark, used_blobs, unused_blobs)` match of `decide_packs`,
@@ -183,6 +184,116 @@ def tr_pat(p):
     return " && ".join(c)
 
 
+def tr_lim_expr(e):
+    e = norm(e).rstrip(",")
+    if e == "0": return "Some 0"
+    if e == "u64::MAX": return "None"
+    if e == "size.as_u64()": return "Some size"
+    m = re.fullmatch(r"\{? ?p\.saturating_mul\(self\.stats\.size_sum\(\)\.(used|total\(\))\) / (\(100 - p\)|100) ?\}?", e)
+    if m:
+        x = "used" if m.group(1) == "used" else "total"
+        return "Some (sat_mul p %s / %s)" % (x, m.group(2))
+    raise ExtractError("decide_repack: limit expression not recognised: %r" % e)
+
+
+def tr_limit_match(body, var, with_bool):
+    """the `match` that turns a LimitOption into a byte limit -> Coq term (None = u64::MAX = no limit)"""
+    arms = split_arms(body)
+    true_arm, by = None, {"Unlimited": [], "Size": [], "Percentage": []}
+    for pat, guard, arm in arms:
+        pat = norm(pat)
+        if with_bool:
+            m = re.fullmatch(r"\((true|false), (.*)\)", pat)
+            if not m: raise ExtractError("decide_repack: limit pattern %r" % pat)
+            if m.group(1) == "true":
+                if m.group(2) != "_" or guard: raise ExtractError("decide_repack: limit pattern %r" % pat)
+                true_arm = tr_lim_expr(arm); continue
+            pat = m.group(2)
+        m = re.fullmatch(r"LimitOption::(Unlimited|Size\(size\)|Percentage\(p\))", pat)
+        if not m: raise ExtractError("decide_repack: limit pattern %r" % pat)
+        k = m.group(1).split("(")[0]
+        g = None
+        if guard:
+            mg = re.fullmatch(r"\*p >= (\d+)", norm(guard))
+            if not mg or k != "Percentage": raise ExtractError("decide_repack: limit guard %r" % guard)
+            g = "(%s <=? p)" % mg.group(1)
+        by[k].append((g, tr_lim_expr(arm)))
+    def chain(l):
+        if not l or l[-1][0] is not None: raise ExtractError("decide_repack: limit match not exhaustive")
+        t = l[-1][1]
+        for g, e in reversed(l[:-1]):
+            t = e if g is None else "(if %s then %s else %s)" % (g, e, t)
+        return t
+    inner = "match %s with LUnlimited => %s | LSize size => %s | LPercent p => %s end" % (var, chain(by["Unlimited"]), chain(by["Size"]), chain(by["Percentage"]))
+    if with_bool:
+        if true_arm is None: raise ExtractError("decide_repack: no (true, _) arm")
+        return "if ru then %s else %s" % (true_arm, inner)
+    return inner
+
+
+def gen_repack(src, blob, out, meta):
+    dr = fn_body(src, "decide_repack")
+    ndr = norm(dr)
+    # limits
+    m = re.search(r"let max_unused = match\s*\(\s*repack_uncompressed\s*,\s*max_unused\s*\)\s*\{", dr)
+    if not m: raise ExtractError("decide_repack: max_unused match not found")
+    b = m.end() - 1
+    mu = tr_limit_match(dr[b + 1:match_brace(dr, b)], "l", True)
+    m = re.search(r"let max_repack = match\s+max_repack\s*\{", dr)
+    if not m: raise ExtractError("decide_repack: max_repack match not found")
+    b = m.end() - 1
+    mr = tr_limit_match(dr[b + 1:match_brace(dr, b)], "l", False)
+    fpo = norm(fn_body(src, "from_prune_options"))
+    if "opts.repack_uncompressed || opts.repack_all," not in fpo:
+        raise ExtractError("from_prune_options: decide_repack is no longer called with repack_uncompressed || repack_all")
+    out.append("")
+    out.append("(* decide_repack: byte limits (None = u64::MAX = unlimited); ru = repack_uncompressed || repack_all *)")
+    out.append("Definition limit_unused_x (ru : bool) (l : limit) (used : N) : option N :=\n  %s." % mu)
+    out.append("Definition limit_repack_x (l : limit) (total : N) : option N :=\n  %s." % mr)
+    # ordering key
+    cm = norm(fn_body(src, "cmp"))
+    m = re.fullmatch(r"self\.blob_type\.cmp\(&other\.blob_type\)\.then\( \(u64::from\((\w+)\.(\w+)\) \* u64::from\((\w+)\.(\w+)\)\) \.cmp\(&\(u64::from\((\w+)\.(\w+)\) \* u64::from\((\w+)\.(\w+)\)\)\), \)", cm)
+    if not m: raise ExtractError("PackInfo::cmp not recognised: %r" % cm)
+    g = m.groups()
+    F = {"used_size": "pi_used_size", "unused_size": "pi_unused_size"}
+    for i in (0, 2, 4, 6):
+        if g[i] not in ("self", "other") or g[i + 1] not in F: raise ExtractError("PackInfo::cmp operands not recognised")
+    v = {"self": "a", "other": "b"}
+    out.append("(* PackInfo::cmp(self = a, other = b): blob type first, then cmp_lhs.cmp(cmp_rhs) *)")
+    out.append("Definition cmp_lhs (a b : pinfo) : N := %s %s * %s %s." % (F[g[1]], v[g[0]], F[g[3]], v[g[2]]))
+    out.append("Definition cmp_rhs (a b : pinfo) : N := %s %s * %s %s." % (F[g[5]], v[g[4]], F[g[7]], v[g[6]]))
+    en = re.search(r"pub enum BlobType \{(.*?)\}", norm(blob))
+    if not en: raise ExtractError("enum BlobType not found")
+    names = re.findall(r"\b(Tree|Data)\s*,", en.group(1))
+    if sorted(names) != ["Data", "Tree"]: raise ExtractError("enum BlobType variants not recognised")
+    out.append("Definition btype_rank (t : btype) : N := match t with %s => 0 | %s => 1 end.   (* derive(Ord): declaration order *)" % (names[0], names[1]))
+    if "self.repack_candidates.sort_unstable_by_key(|rc| rc.0);" not in ndr:
+        raise ExtractError("decide_repack: candidates are no longer sorted by PackInfo")
+    # the loop
+    m = re.search(r"if (total_repack_size \+ .*?) \{ pack\.set_todo\(PackToDo::Keep, &pi, status, &mut self\.stats\); \}", ndr)
+    if not m: raise ExtractError("decide_repack: keep condition not found")
+    c = m.group(1)
+    c2 = c.replace("total_repack_size + u64::from(pi.used_size) >= max_repack", "lim_ge (total + used_size) max_repack")
+    c2 = c2.replace("self.stats.size_sum().unused_after_prune() < max_unused", "lim_lt unused_after max_unused")
+    c2 = re.sub(r"repack_reason == RepackReason::(\w+)", r"reason_eqb r \1", c2)
+    c2 = re.sub(r"blob_type == BlobType::(\w+)", r"btype_eqb t \1", c2)
+    left = re.sub(r"lim_ge \(total \+ used_size\) max_repack|lim_lt unused_after max_unused|reason_eqb r (PartlyUsed|ToCompress|SizeMismatch)|btype_eqb t (Tree|Data)|no_resize|&&|\|\||[()\s]", "", c2)
+    if left: raise ExtractError("decide_repack: keep condition has an unrecognised shape: %r" % c)
+    out.append("(* decide_repack loop: the candidate is kept when ... *)")
+    out.append("Definition keep_cond (total used_size : N) (max_repack max_unused : option N) (unused_after : N) (r : reason) (t : btype) (no_resize : bool) : bool :=\n  %s." % c2)
+    for pin in ["let total_repack_size: u64 = repack_size.into_values().sum();",
+                "} else if repack_reason == RepackReason::SizeMismatch { resize_packs[blob_type].push((pi, status, index_num, pack_num)); repack_size[blob_type] += u64::from(pi.used_size); } else { pack.set_todo(PackToDo::Repack, &pi, status, &mut self.stats); repack_size[blob_type] += u64::from(pi.used_size); do_repack[blob_type] = true; }",
+                "let todo = if do_repack[blob_type] || repack_size[blob_type] > u64::from(pack_sizer[blob_type].pack_size()) { PackToDo::Repack } else { PackToDo::Keep };"]:
+        if norm(pin) not in ndr: raise ExtractError("decide_repack: pinned text changed: " + pin[:70])
+    out.append("Definition resize_repacks (do_repack : bool) (repack_size target : N) : bool := do_repack || (target <? repack_size).")
+    st = norm(fn_body(src, "set_todo"))
+    for pin in ["stats.size[tpe].repackrm += u64::from(pi.unused_size);", "stats.size[tpe].remove += u64::from(pi.unused_size);"]:
+        if pin not in st: raise ExtractError("set_todo: pinned text changed: " + pin)
+    if "self.unused - self.remove - self.repackrm" not in norm(fn_body(src, "unused_after_prune")):
+        raise ExtractError("SizeStats::unused_after_prune changed")
+    meta["keep_cond"] = c
+
+
 def gen(repo):
     src = read(repo, "crates/core/src/commands/prune.rs")
     blob = read(repo, "crates/core/src/blob.rs")
@@ -350,6 +461,7 @@ def gen(repo):
         out.append("  | %s => %s" % (t, str(repacks[t]).lower()))
     out.append("  end.")
     meta["exec_rows"] = rows
+    gen_repack(src, blob, out, meta)
     return "\n".join(out) + "\n", meta
 
 
